@@ -166,12 +166,13 @@ def _family_classes(ix):
     return out
 
 
-def rule_b(ctx, ix, reg):
-    R = 'C02.b'
+def rule_b(ctx, ix, reg, R='C02.b', floor=90, only_root=None):
     ctx.describe(R, 'every class of the serialisable families resolves to a saver that keeps its state and a '
-                    'loader that rebuilds the same class', floor=90)
+                    'loader that rebuilds the same class', floor=floor)
     classes = []
     for c, behaviour, label, root in _family_classes(ix):
+        if only_root is not None and root.qualname != only_root:
+            continue
         skind, sfunc, sver, svia = reg.saver_for(c)
         if sfunc is None:
             ctx.ob(R, c.construct, 'no saver: saving fails loudly', True, nontrivial=False)
@@ -229,10 +230,9 @@ def rule_b(ctx, ix, reg):
 
 
 # ---------------------------------------------------------------------------------------
-def rule_c(ctx, ix, reg, classes):
-    R1, R2 = 'C02.c(i)', 'C02.c(ii)'
-    ctx.describe(R1, 'field identity: what was saved from field f comes back into field f', floor=100)
-    ctx.describe(R2, 'nothing the behaviour depends on is dropped between saver and loader', floor=30)
+def rule_c(ctx, ix, reg, classes, R1='C02.c(i)', R2='C02.c(ii)', floors=(100, 30)):
+    ctx.describe(R1, 'field identity: what was saved from field f comes back into field f', floor=floors[0])
+    ctx.describe(R2, 'nothing the behaviour depends on is dropped between saver and loader', floor=floors[1])
     for rec in classes:
         c, sinfo, linfo = rec['cls'], rec['sinfo'], rec['linfo']
         if linfo is None or c.qualname in UNMODELLED:
